@@ -72,7 +72,22 @@ Theorem C12_sorted_spec :
   (forall j, In j js <-> j <> i /\ resolved_import resolve mods i j).
 Proof. exact expand_sorted_spec. Qed.
 
+(* An import names a module by its exact path, or by its path relative to the
+   directory of the importing file; the exact path wins; nothing else matches. *)
+Theorem C12_import_resolution : forall file keys includer i,
+  get_key_offset file keys includer = Some i ->
+  nth_error keys i = Some file
+  \/ (~ In file keys /\ exists dir, parent_of includer = Some dir /\ nth_error keys i = Some (dir ++ file)).
+Proof. exact get_key_offset_sound. Qed.
+
+Theorem C12_import_unresolved : forall file keys includer,
+  get_key_offset file keys includer = None ->
+  ~ In file keys /\ forall dir, parent_of includer = Some dir -> ~ In (dir ++ file) keys.
+Proof. exact get_key_offset_complete. Qed.
+
 Print Assumptions C12_imported_exactly_public.
+Print Assumptions C12_import_resolution.
+Print Assumptions C12_import_unresolved.
 Print Assumptions C12_provenance.
 Print Assumptions C12_private_never_visible.
 Print Assumptions C12_no_transitive_import.
